@@ -2,7 +2,7 @@
    correspondence check (vm_compute in the kernel, extracted OCaml) call only this. *)
 From Coq Require Import ZArith List Bool.
 Import ListNotations.
-From Eudoxia Require Import Model.Codec Model.RunLife Model.RunExec Model.RunTime.
+From Eudoxia Require Import Model.Codec Model.RunLife Model.RunExec Model.RunTime Model.RunSim.
 
 Definition run (kind : Z) (l : list Z) : list Z :=
   match kind with
@@ -10,6 +10,7 @@ Definition run (kind : Z) (l : list Z) : list Z :=
   | 2 => run_life l
   | 3 => run_exec l
   | 4 => run_time l
+  | 5 => run_sim l
   | _ => bad_input
   end%Z.
 
